@@ -664,6 +664,9 @@ impl<'a> Gen<'a> {
                             let c = if rng.chance(1, 12) { self.w.own_clock } else { let mut c = *rng.pick(&CLOCKS[2..]); c[7] = c[7].wrapping_add(i as u8); c };
                             v.extend_from_slice(&c);
                         }
+                        if rng.chance(1, 5) {
+                            v.extend_from_slice(&rng.bytes(2 * (1 + rng.below(3) as usize)));
+                        }
                         f.suffix.extend(tlv(0x0008, &v));
                     }
                     2 => f.suffix.extend(tlv(0x0009, &rng.bytes(2 * rng.below(12) as usize))),
@@ -1395,6 +1398,10 @@ impl<'a> Gen<'a> {
                             c
                         };
                         v.extend_from_slice(&c);
+                    }
+                    if rng.chance(1, 5) {
+                        // a value that is not a whole number of identities (any even length parses)
+                        v.extend_from_slice(&rng.bytes(2 * (1 + rng.below(3) as usize)));
                     }
                     f.suffix.extend(tlv(0x0008, &v));
                 }
